@@ -6,7 +6,7 @@ from .common import Inconclusive
 MC_CFG = """SPECIFICATION Spec
 CONSTANTS
   RIds = %s
-  Msgs = {"a", "b"}
+  Msgs = %s
   Nil = "nil"
   MaxMC = %d
 CONSTRAINT Bounded
@@ -40,13 +40,18 @@ def run(tier, seed):
     vh = common.build_vh()
     quick = tier == "quick"
     # 1. exhaustive model check of the accumulator's design (all operation sequences within the bounds)
-    wd = common.workdir("C20-mc")
-    r = common.tlc_or_inconclusive(wd, "MC_Result", MC_CFG % (('{"r1", "r2"}', 3) if quick else ('{"r1", "r2", "r3"}', 2)),
-                                   timeout=600 if quick else 7200, workers=8 if quick else 14, heap="6g")
-    if r["violated"]:
-        raise Inconclusive("the Result specification violates its own property %s (spec bug):\n%s" % (r["violated"], r["out"][-2000:]))
-    check.add_tlc(r)
-    check.coverage["exhaustive_model"] = dict(distinct_states=r["distinct"], transitions=r["states"], depth=r["depth"])
+    configs = [('{"r1", "r2"}', '{"a", "b"}', 3)]
+    if not quick:
+        # measured: 3 results x 2 messages does not finish (>10^9 transitions); three results are explored with one message
+        configs.append(('{"r1", "r2", "r3"}', '{"a"}', 2))
+    check.coverage["exhaustive_model"] = []
+    for k, (rids, msgs, maxmc) in enumerate(configs):
+        wdk = common.workdir("C20-mc%d" % k)
+        r = common.tlc_or_inconclusive(wdk, "MC_Result", MC_CFG % (rids, msgs, maxmc), timeout=600 if quick else 3600, workers=8 if quick else 14, heap="8g")
+        if r["violated"]:
+            raise Inconclusive("the Result specification violates its own property %s (spec bug):\n%s" % (r["violated"], r["out"][-2000:]))
+        check.add_tlc(r)
+        check.coverage["exhaustive_model"].append(dict(results=rids, messages=msgs, distinct_states=r["distinct"], transitions=r["states"], depth=r["depth"]))
     # 2. spec -> code: TLC-generated behaviours stepped through real validate.Result values
     nproc, num, depth = (6, 12, 30) if quick else (14, 60, 60)
 
@@ -102,6 +107,6 @@ def run(tier, seed):
                               "behaviours: TLC -simulate behaviours (3 results incl. pool-borrowed ones that die when merged, 3 messages, nil arguments, self-merges) "
                               "replayed step by step into real validate.Result values with redeemed results poisoned; the projection (messages in order, counts, 5 queries) of every "
                               "live result is compared after every step. traces: seeded random operation sequences on 5 results / 6 messages recorded from the code and validated by "
-                              "Trace_Result.tla. distinct = distinct (operation, state-after) pairs." % ("2" if quick else "3"))
+                              "Trace_Result.tla. distinct = distinct (operation, state-after) pairs." % ("2" if quick else "2 (2 messages) and 3 (1 message)"))
     check.assumptions = ["error values are compared by message text (the property's notion of identity)", "projection function of the harness (cmd/vh/result.go) is trusted"]
     return check.finish()
